@@ -13,11 +13,11 @@ import yaml
 BASE = 1000000000
 CONCRETE = {
     'main': 'policy.yaml',
-    'd1/a': 'd1/a-second-created.yaml',
-    'd1/b': 'd1/b-first-created.json',
-    'd2/a': 'd2/a.yaml',
-    'd1/.hidden': 'd1/.hidden.yaml',
-    'd1/sub': 'd1/sub',
+    'd1/a': 'd1[site]/a-second-created.yaml',
+    'd1/b': 'd1[site]/b-first-created.json',
+    'd2/a': 'd2 *?/a.yaml',
+    'd1/.hidden': 'd1[site]/.hidden.yaml',
+    'd1/sub': 'd1[site]/sub',
 }
 
 
@@ -40,8 +40,9 @@ class Box:
         self.clock = 1
         self.names = dict(CONCRETE)
         self.names['main'] = main_name
+        self.dirnames = {'d1': 'd1[site]', 'd2': 'd2 *?', 'd3': 'd3'}
         for d in ('d1', 'd2'):
-            os.makedirs(os.path.join(self.root, d))
+            os.makedirs(os.path.join(self.root, self.dirnames[d]))
         self.dir_mtime = {'d1': 1, 'd2': 1}
         self._stamp_dirs()
 
@@ -49,11 +50,11 @@ class Box:
         return os.path.join(self.root, self.names[f])
 
     def dirs(self):
-        return [os.path.join(self.root, d) for d in ('d1', 'd2', 'd3')]
+        return [os.path.join(self.root, self.dirnames[d]) for d in ('d1', 'd2', 'd3')]
 
     def _stamp_dirs(self):
         for d, t in self.dir_mtime.items():
-            os.utime(os.path.join(self.root, d), (BASE + t, BASE + t))
+            os.utime(os.path.join(self.root, self.dirnames[d]), (BASE + t, BASE + t))
 
     def _dir_of(self, f):
         return f.split('/')[0] if '/' in f else None
